@@ -3,7 +3,8 @@
       utils/io/columnseries.go:486  GetMissingAndTypeCoercionColumns, ExtractDatashapesByNames
       utils/io/coercecolumn.go      CoerceColumnType, toInt / toUint / toFloat
       executor/writer.go:262        WriteCSM: the bucket loop in a GIVEN iteration order of the request map,
-                                    schema check, coercion, ToRowSeries, queueing of the rows; the flush
+                                    schema check, coercion, SerializeColumnsToRows in the BUCKET's column order,
+                                    queueing of the rows; the flush
                                     (RequestFlush) only at the end of a fully accepted request.
 
     Go function                         model
@@ -218,6 +219,52 @@ Fixpoint apply_coercions (cols : list col) (cs : list shape) : Res (list col) :=
       end
   end.
 
+(** io.SerializeColumnsToRows(cs, dataShapes, align=false) as WriteCSM calls it with the bucket's shapes
+    (columnseries.go:544): columns still of another type are coerced (errors only logged), the rows are laid
+    out in the order of [db], every shape's column looked up by name; an "Epoch"-like shape is skipped
+    (the epoch leads each row).  Missing columns would be added by AddNullColumn, which panics in reflect
+    (MakeSlice of a non-slice type); WriteCSM never gets there. *)
+Fixpoint coerce_logged (cols : list col) (cs : list shape) : Res (list col) :=
+  match cs with
+  | [] => Ok cols
+  | (n, t) :: r =>
+      match find (fun c => bytes_eqb (cname c) n) cols with
+      | None => Panic
+      | Some c =>
+          match coerce_column (ctype c) t (cdata c) with
+          | Ok d => coerce_logged (map (fun c' => if bytes_eqb (cname c') n then mkcol n (coerced_type t) d else c') cols) r
+          | Rejected => coerce_logged cols r
+          | Panic => Panic
+          end
+      end
+  end.
+
+Fixpoint in_order (db : list shape) (cols : list col) : Res (list col) :=
+  match db with
+  | [] => Ok []
+  | (n, t) :: r =>
+      match find (fun c => bytes_eqb (cname c) n) cols with
+      | Some c => do rest <- in_order r cols; Ok (mkcol n t (cdata c) :: rest)
+      | None => Rejected
+      end
+  end.
+
+Definition serialize_as (db : list shape) (cols : list col) : Res (list byte) :=
+  match missing_and_coercion db (cs_shapes cols) with
+  | Rejected => Rejected | Panic => Panic
+  | Ok (_ :: _, _) => Panic
+  | Ok ([], coercion) =>
+      do cols1 <- coerce_logged cols coercion;
+      do ordered <- in_order db cols1;
+      if negb (existsb (fun sh => is_epoch_name (fst sh)) db) then Rejected
+      else match find (fun c => bytes_eqb (cname c) epoch_name) cols1 with
+           | Some ec => if ctype ec =? ET_INT64
+                        then ser_rows (cdata ec) ordered 0 0 (length (cdata ec) / 8)
+                        else Rejected
+           | None => Rejected
+           end
+  end.
+
 Definition split_rows (data : list byte) (n : nat) : list (list byte) :=
   match n with O => [] | _ => chunks (length data / n) n data end.
 
@@ -248,9 +295,9 @@ Definition write_one (st : wstate) (r : breq) : wstate * nat :=
                        match apply_coercions (r_cols r) coercion with
                        | Rejected => (st1, 1%nat) | Panic => (st1, 2%nat)
                        | Ok cols' =>
-                           match serialize cols' false with
+                           match serialize_as db cols' with
                            | Rejected => (st1, 1%nat) | Panic => (st1, 2%nat)
-                           | Ok (data, _) =>
+                           | Ok data =>
                                (mkS (w_buckets st1)
                                     (w_queue st1 ++ map (fun row => (r_key r, row)) (split_rows data n)), 0%nat)
                            end
